@@ -28,9 +28,24 @@ import (
 func run(e *core.Env) {
 	tp := e.Tape
 	e.StartClock()
-	ms := mesh.Build(e, mesh.Options{
-		MinNodes: 2, MaxNodes: 16, MaxExtraEdges: 3, TwoByteLabels: true, BigInfo: true,
-	})
+	opts := mesh.Options{MinNodes: 2, MaxNodes: 16, MaxExtraEdges: 3, TwoByteLabels: true, BigInfo: true}
+	switch tp.Intn(8) {
+	case 0:
+		// a dense mesh of 13..16 routers of which all but one lie in one foreign continent
+		// prefix: every destination is held over several paths, so this is where a router's
+		// per-prefix table limits come closest to what a 16-router mesh needs
+		opts.MinNodes, opts.Kinds, opts.Continents = 13, []string{"relays"}, true
+		e.Probe("dense_mesh_in_one_foreign_continent")
+	case 1, 2:
+		opts.RoamingSome = true
+	case 3:
+		// routers started seconds apart: their first announcement may find no link yet, and
+		// the periodic workers of neighbours may fire in the same millisecond; judged after
+		// the second announcement round
+		opts.LongStagger, opts.Prompt, opts.MaxNodes = true, true, 6
+		e.Probe("routers_started_seconds_apart")
+	}
+	ms := mesh.Build(e, opts)
 	n := len(ms.Nodes)
 	parser := frame.NewFrameBuilder()
 	// Flood rules are checked on every announcement a router hands to a link.
@@ -105,7 +120,7 @@ func run(e *core.Env) {
 
 	// Let the shipped announce workers fire (5 s after each start), then drain.
 	rounds := 1
-	if tp.Chance(1, 6) {
+	if tp.Chance(1, 6) || opts.LongStagger {
 		rounds = 2
 	}
 	totalSteps := 0
